@@ -201,6 +201,8 @@ def ufunc_case(draw, tier, kinds=("unary", "ragged", "scalar", "column")):
         if kind == "ragged":
             dt = draw(st.sampled_from(gen.C04_DT))
             case["b"] = {"dt": dt, "vals": draw(gen.flat_values(dt, sum(lens), wide=True))}
+            if draw(st.integers(0, 4)) == 0 and a["dt"] != "bool":
+                case["b"]["vals"] = gen.near_values(draw, a["vals"], dt)     # b's cells coincide with a's or differ by one
             case["lb"] = draw(st.sampled_from(LAZY_CHOICES))
         elif kind == "scalar":
             case["b"] = draw(_SC)
